@@ -144,6 +144,8 @@ def run_check(chk: PropertyCheck, tier: str) -> int:
             try:
                 coq_make([f"props/{chk.pid}.vo"])
                 rep.cov["discharged"] = len(names)
+                if tier == "thorough":
+                    rep.cov["coqchk"] = common.coqchk(chk.pid)
                 pa = print_assumptions(chk.pid)
                 rep.cov["print_assumptions"] = pa
                 for n, a in pa.items():
@@ -227,7 +229,17 @@ def run_check(chk: PropertyCheck, tier: str) -> int:
             rep.violation(payload, found_input=False)
         elif broken and not rep.violations and rep.known_hits:
             # obligation broken only by known findings is still a broken obligation
-            rep.violation({"broken": str(proof_broken), "mismatches": len(mismatches)}, found_input=False)
+            payload = {"broken": str(proof_broken), "mismatches": len(mismatches)}
+            if mismatches:
+                c, obs = mismatches[0]
+                payload["first_disagreeing_case"] = chk.describe(c)
+                payload["implementation_output_z"] = chk.obs_to_z(c, obs)
+                try:
+                    payload["model_output_z"] = common.eval_in_coq(
+                        chk.model_imports, [f"({chk.run_expr}) ({chk.model_input(c)})"], preamble=chk.case_preamble)[0]
+                except Exception as e:  # noqa
+                    payload["model_output_z"] = f"unavailable: {e}"
+            rep.violation(payload, found_input=False)
     finally:
         chk.teardown()
     return rep.finish()
